@@ -365,10 +365,81 @@ pub fn run(ctx: &Ctx) -> CheckResult {
         res.extra.insert("level_sweep_configurations".into(), json!(sweep.len()));
         res.absorb(merge_jobs(outs));
     }
+    // medium periods: a tick-grid walk of 3n + k inputs (k = 0..3: the stretch starts at different ring
+    // phases), then a flat stretch of 2n + 3 inputs at levels inside and outside the walk's range
+    if !res.out.failed() {
+        let mut med: Vec<Cfg> = vec![];
+        for k in ALL_KINDS {
+            for &n in if th { &[9usize, 12, 14, 20, 26, 33][..] } else { &[9usize, 14, 20, 33][..] } {
+                med.push(match k.nperiods() {
+                    0 => continue,
+                    1 => {
+                        if k.has_mult() {
+                            Cfg::pm(k, n, 2.0)
+                        } else {
+                            Cfg::p1(k, n)
+                        }
+                    }
+                    2 => Cfg::p2(k, n, 3),
+                    _ => Cfg::p3(k, n, 2 * n + 1, 9),
+                });
+            }
+        }
+        let outs = par_run(ctx, &med, |_, cfg| {
+            let mut out = JobOut::default();
+            let n = cfg.max_period();
+            for (st, w) in plan(cfg) {
+                if !matches!(st, Stretch::Scalar | Stretch::OnePriceBar) {
+                    continue;
+                }
+                let bars = st != Stretch::Scalar;
+                for k in 0..4usize {
+                    let pre = super::refcmp::tick_walk(3 * n + k, ctx.seed ^ 0x8, bars, true, false);
+                    for level in [1.0, 10.25, 33.25, 1e6] {
+                        let stretch_len = 2 * n + 3;
+                        let r = std::panic::catch_unwind(std::panic::AssertUnwindSafe(|| {
+                            let mut s = make(cfg);
+                            for op in pre.iter() {
+                                s.apply(op);
+                            }
+                            (0..stretch_len).map(|j| s.apply(&stretch_op(st, level, j))).collect::<Vec<Out>>()
+                        }));
+                        out.stats.traces += 1;
+                        out.stats.states += 1;
+                        out.stats.transitions += (pre.len() + stretch_len) as u64;
+                        let res = match r {
+                            Ok(x) => x,
+                            Err(_) => {
+                                out.fail(Violation::new(PROP, cfg, &pre[..], "panic").obs("panic".into()).exp("a finite value".into()));
+                                return out;
+                            }
+                        };
+                        let mut m = pre.iter().map(|o| o.maxmag()).fold(0.0, f64::max).max(level);
+                        for j in 0..stretch_len {
+                            if j + 1 < w {
+                                continue;
+                            }
+                            m = m.max(level);
+                            out.stats.evaluations += 1;
+                            out.stats.nontrivial += 1;
+                            if let Err((class, exp)) = check_step(cfg, st, pre.len() + j + 1, m, &res[j]) {
+                                let mut ops = pre.as_ref().clone();
+                                ops.extend((0..=j).map(|i| stretch_op(st, level, i)));
+                                out.fail(Violation::new(PROP, cfg, &ops, &class).obs(out2s(&res[j])).exp(exp).det(format!("{:?} stretch at level {} : step {} of the stretch after a tick-grid walk of {} inputs (window degenerate)", st, level, j + 1, pre.len())));
+                                return out;
+                            }
+                        }
+                    }
+                }
+            }
+            out
+        });
+        res.absorb(merge_jobs(outs));
+    }
     res.extra.insert("configurations".into(), json!(jobs.len()));
     res.rule = "case = (configuration, active prefix, stretch kind, flat level, step of the stretch); the real output at every step whose reference window is degenerate (min(t,w) trailing inputs flat / zero-flow) must be finite, inside the documented range, and equal the documented neutral value where one is defined; non-trivial = non-empty active prefix".into();
     res.bounds = format!(
-        "all 22 indicators, periods 1..8; every active prefix over {{2, 0.3, 1e6, 7.7, 1e9}} up to depth {}, reset() being one of the prefix symbols, prefixes of length <= 1 also followed by a serde round trip / clone, and each prefix also fed through the other input path (bars before a scalar stretch and vice versa) (exponential-memory kinds at periods 1..3: {}), levels {{1, 0.1, 0.7, 3.3, 1e6, -1, -3.3}} (and 1e200, 1e-200, 1e300 for streams flat from the start), stretch kinds scalar / one-price bar / both alternating on one instance / zeros of both signs / same bar (CCI, MFI) / zero volume (MFI, OBV), every stretch length 1..{} ({} for exponential-memory kinds{}); level sweep for periods 1..3: all two-decimal prices 0.01..20.00 and 2000 log-uniform levels in [1e-3, 1e6]",
+        "all 22 indicators, periods 1..8; every active prefix over {{2, 0.3, 1e6, 7.7, 1e9}} up to depth {}, reset() being one of the prefix symbols, prefixes of length <= 1 also followed by a serde round trip / clone, and each prefix also fed through the other input path (bars before a scalar stretch and vice versa) (exponential-memory kinds at periods 1..3: {}), levels {{1, 0.1, 0.7, 3.3, 1e6, -1, -3.3}} (and 1e200, 1e-200, 1e300 for streams flat from the start), stretch kinds scalar / one-price bar / both alternating on one instance / zeros of both signs / same bar (CCI, MFI) / zero volume (MFI, OBV), every stretch length 1..{} ({} for exponential-memory kinds{}); periods 9, 14, 20, 33 after tick-grid walks of 3n..3n+3 inputs; level sweep for periods 1..3: all two-decimal prices 0.01..20.00 and 2000 log-uniform levels in [1e-3, 1e6]",
         4,
         3,
         if th { 600 } else { 64 },
